@@ -779,6 +779,12 @@ def outsideKeywords : List String :=
 
 def isOutsideKeyword (v : Bytes) : Bool := outsideKeywords.any fun k => bytesOfString k == v
 
+/-- the token is the literal word `v` (`p.tok == _LitWord && p.val == v`) -/
+def Tok.isLit (t : Tok) (v : Bytes) : Bool :=
+  match t with
+  | .word _ (some v') => v' == v
+  | _ => false
+
 /-- `p.stopToken()` -/
 def Tok.isStop : Tok → Bool
   | .eof | .newl | .semi | .amp | .pipe | .andAnd | .orOr | .rparen => true
@@ -825,41 +831,31 @@ def stmtsF : Nat → Bool → Bool → Bool → PS → List Stmt → Except Pars
     else
       let (newLine, ps) := ps.gotNewl
       -- the switch on p.tok
-      let brk : Option (Except ParseErr Unit) :=
-        match ps.tok with
-        | .word _ (some v) =>
-          if v == [125] then
-            if stopBrace then some (.ok ()) else some (.error (.syntax "`}` can only be used to close a block"))
-          else none
-        | .rparen => if inSub then some (.ok ()) else none
-        | _ => none
-      match brk with
-      | some (.ok ()) => .ok (acc.reverse, ps)
-      | some (.error e) => .error e
-      | none =>
-        if !newLine && !gotEnd then .error (.syntax "statements must be separated by &, ; or a newline")
-        else if ps.tok == .eof then .ok (acc.reverse, ps)
-        else
-          match getStmtF fuel inSub true false ps with
-          | .error e => .error e
-          | .ok (none, ps') =>
-            match ps'.tok with
-            | .outside => .error .outside
-            | .unclosedQuote => .error (.syntax "reached EOF without closing quote '")
-            | _ => .error (.syntax "not a valid start for a statement")
-          | .ok (some s, ps') => stmtsF fuel inSub stopBrace s.semi.valid ps' (s :: acc)
+      if ps.tok.isLit [125] then
+        if stopBrace then .ok (acc.reverse, ps)
+        else .error (.syntax "`}` can only be used to close a block")
+      else if ps.tok == .rparen && inSub then .ok (acc.reverse, ps)
+      else if !newLine && !gotEnd then .error (.syntax "statements must be separated by &, ; or a newline")
+      else if ps.tok == .eof then .ok (acc.reverse, ps)
+      else
+        match getStmtF fuel inSub true false ps with
+        | .error e => .error e
+        | .ok (none, ps') =>
+          match ps'.tok with
+          | .outside => .error .outside
+          | .unclosedQuote => .error (.syntax "reached EOF without closing quote '")
+          | _ => .error (.syntax "not a valid start for a statement")
+        | .ok (some s, ps') => stmtsF fuel inSub stopBrace s.semi.valid ps' (s :: acc)
 
 /-- `p.getStmt(readEnd, binCmd, false)` -/
 def getStmtF : Nat → Bool → Bool → Bool → PS → Except ParseErr (Option Stmt × PS)
   | 0, _, _, _, _ => .error .outOfFuel
   | fuel + 1, inSub, readEnd, binCmd, ps =>
     let pos := ps.pos
-    let neg := match ps.tok with
-      | .word _ (some v) => v == [33]
-      | _ => false
+    let neg := ps.tok.isLit [33]
     let ps := if neg then ps.next else ps
     if neg && ps.tok.isStop then .error (.syntax "`!` cannot form a statement alone")
-    else if neg && (match ps.tok with | .word _ (some v) => v == [33] | _ => false) then
+    else if neg && ps.tok.isLit [33] then
       .error (.syntax "cannot negate a command multiple times")
     else
       match gotStmtPipeF fuel inSub pos neg false ps with
@@ -932,12 +928,9 @@ def firstCmdF : Nat → Bool → Pos → Bool → PS → Except ParseErr (Option
             | .ok (ss, ps) =>
               if ss.isEmpty then .error .outside -- `{ }` : an error or an empty list by variant
               else
-                match ps.tok with
-                | .word _ (some v') =>
-                  if v' == [125] then .ok (some (mkStmt pos neg (.block lb ps.pos (Stmts.ofList ss))), ps.next)
-                  else .error (.syntax "reached EOF without matching `{` with `}`")
-                | .outside => .error .outside
-                | _ => .error (.syntax "reached EOF without matching `{` with `}`")
+                if ps.tok.isLit [125] then .ok (some (mkStmt pos neg (.block lb ps.pos (Stmts.ofList ss))), ps.next)
+                else if ps.tok == .outside then .error .outside
+                else .error (.syntax "reached EOF without matching `{` with `}`")
         else if v == [125] then .error (.syntax "`}` can only be used to close a block")
         else if v == [33] then
           if !neg then .error (.syntax "`!` can only be used in full statements") else .error .outside
